@@ -28,7 +28,8 @@ Templates == {"nil", "int", "string", "struct", "slice", "map", "pointer", "inte
 Receivers == {"rules", "bare"}
 ValueClasses == {"scalars", "struct", "chan", "func", "complex", "unsafe-pointer", "struct-with-func", "slice-of-chan", "map-with-chan-value",
                  "nil-pointer", "nil-interface", "nil-map", "pointer-cycle", "map-cycle", "slice-cycle", "deep-nesting", "big-slice", "invalid-utf8-string",
-                 "nan-key", "unexported-fields", "embedded-pointer", "uintptr", "array-of-func"}
+                 "nan-key", "unexported-fields", "embedded-pointer", "uintptr", "array-of-func",
+                 "node-cycle", "node-pointer-cycle", "edge-pointer-cycle", "time-year-zero", "fixed-zone-time"}
 
 Outcome == {"value", "error"}
 Cases == {[op |-> "decode", entry |-> e, input |-> i, with |-> r] : e \in DecodeEntries, i \in InputClasses, r \in Receivers}
